@@ -57,4 +57,166 @@ WITNESSES = [
             if space1 != space2 and space2 != "g":
                 return (j, i)
             return (i, j)"""),
+    # ---- breaking witnesses for the checks introduced with the evaluation on the orbital model
+    dict(id="c09-none-guard-removed", prop="C09", file=F, expect="R09a",
+         old="""            idx = d.preferred_and_killable
+            if idx is None:  # delta_{i p_alpha}
+                continue
+            preferred, killable = idx""",
+         new="""            idx = d.preferred_and_killable
+            preferred, killable = idx"""),
+    dict(id="c09-pk-incomplete", prop="C09", file=S, expect="R09b",
+         old="""            if space1 == space2 or space1 == "g":  # oo / vv / gg / go / gv
+                return (j, i)""",
+         new="""            if space1 == space2:
+                return (j, i)"""),
+    dict(id="c09-add-drops-targets", prop="C09", file=F, expect="R09c",
+         old="""        return expr.func(*[evaluate_deltas(arg, target_idx)
+                           for arg in expr.args])""",
+         new="""        return expr.func(*[evaluate_deltas(arg)
+                           for arg in expr.args])"""),
+    dict(id="c09-no-get-symbols", prop="C09", file=F, expect="R09c",
+         old="            target_idx = get_symbols(target_idx)\n", new="            target_idx = list(target_idx)\n"),
+    dict(id="c09-subs-result-dropped", prop="C09", file=F, expect="R09c",
+         old="                expr = expr.subs(killable, preferred)\n", new="                expr.subs(killable, preferred)\n"),
+    dict(id="c09-counter-starts-at-one", prop="C09", file=F, expect=["R09a", "R09c"],
+         old="                        indices[s] = 0", new="                        indices[s] = 1"),
+    dict(id="c09-explicit-first-delta-only", prop="C09", file=F, expect="R09c",
+         old="            deltas = [d for d in expr.args if isinstance(d, KroneckerDelta)]",
+         new="            deltas = [d for d in expr.args if isinstance(d, KroneckerDelta)][:1]"),
+    dict(id="c09-restart-needs-three", prop="C09", file=F, expect="R09c",
+         old="""                expr = expr.subs(killable, preferred)
+                if len(deltas) > 1:""",
+         new="""                expr = expr.subs(killable, preferred)
+                if len(deltas) > 2:"""),
+    dict(id="c09-count-atoms-of-term", prop="C09", file=F, expect=["R09a", "R09c"],
+         old="                for s in obj.atoms(Index):", new="                for s in expr.atoms(Index):"),
+    # ---- behaviour preserving, kinds that are not in the refactoring corpus
+    dict(id="c09-ok-counter", prop="C09", file=F, expect=None,
+         old="""            deltas = []
+            indices = {}
+            for obj in expr.args:
+                for s in obj.atoms(Index):
+                    if s in indices:
+                        indices[s] += 1
+                    else:
+                        indices[s] = 0
+                if isinstance(obj, KroneckerDelta):
+                    deltas.append(obj)
+            # extract the target indices and use them in next recursion
+            # so they only need to be determined once
+            target_idx = [s for s, n in indices.items() if not n]""",
+         new="""            from collections import Counter
+            indices = Counter(s for obj in expr.args
+                              for s in obj.atoms(Index))
+            deltas = [obj for obj in expr.args
+                      if isinstance(obj, KroneckerDelta)]
+            target_idx = [s for s, n in indices.items() if n == 1]"""),
+    dict(id="c09-ok-extracted-decision", prop="C09", file=F, expect=None, edits=[
+        ("def evaluate_deltas(expr, target_idx: str = None):",
+         """def _delta_substitution(delta, targets):
+    pair = delta.preferred_and_killable
+    if pair is None:
+        return None
+    keep, kill = pair
+    if kill not in targets:
+        return kill, keep
+    if keep not in targets and delta.indices_contain_equal_information:
+        return keep, kill
+    return None
+
+
+def evaluate_deltas(expr, target_idx: str = None):"""),
+        ("""            idx = d.preferred_and_killable
+            if idx is None:  # delta_{i p_alpha}
+                continue
+            preferred, killable = idx
+            # try to remove killable
+            if killable not in target_idx:
+                expr = expr.subs(killable, preferred)
+                if len(deltas) > 1:
+                    return evaluate_deltas(expr, target_idx)
+                continue
+            # try to remove preferred.
+            # But only if no information is lost if doing so
+            # -> killable has to be of length 1
+            elif preferred not in target_idx \\
+                    and d.indices_contain_equal_information:
+                expr = expr.subs(preferred, killable)
+                if len(deltas) > 1:
+                    return evaluate_deltas(expr, target_idx)
+        return expr""",
+         """            sub = _delta_substitution(d, target_idx)
+            if sub is None:
+                continue
+            expr = expr.subs(*sub)
+            if len(deltas) > 1:
+                return evaluate_deltas(expr, target_idx)
+        return expr""")]),
+    dict(id="c09-ok-closure-predicate", prop="C09", file=F, expect=None, edits=[
+        ("        for d in deltas:\n            # determine the killable and preferred index",
+         "        def removable(s):\n            return s not in target_idx\n\n"
+         "        for d in deltas:\n            # determine the killable and preferred index"),
+        ("            if killable not in target_idx:\n", "            if removable(killable):\n"),
+        ("            elif preferred not in target_idx \\\n", "            elif removable(preferred) \\\n")]),
+    dict(id="c09-ok-subs-dict", prop="C09", file=F, expect=None, edits=[
+        ("expr = expr.subs(killable, preferred)", "expr = expr.subs({killable: preferred})"),
+        ("expr = expr.subs(preferred, killable)", "expr = expr.subs([(preferred, killable)])")]),
+    dict(id="c09-ok-target-set", prop="C09", file=F, expect=None,
+         old="target_idx = [s for s, n in indices.items() if not n]", new="target_idx = {s for s, n in indices.items() if n < 1}"),
+    dict(id="c09-ok-walrus", prop="C09", file=F, expect=None,
+         old="""            idx = d.preferred_and_killable
+            if idx is None:  # delta_{i p_alpha}
+                continue
+            preferred, killable = idx""",
+         new="""            if (idx := d.preferred_and_killable) is None:
+                continue
+            preferred, killable = idx[0], idx[-1]"""),
+    dict(id="c09-ok-all-generator", prop="C09", file=F, expect=None,
+         old="            if killable not in target_idx:\n", new="            if all(t != killable for t in target_idx):\n"),
+    dict(id="c09-ok-class-flags", prop="C09", file=F, expect=None, edits=[
+        ("""    if isinstance(expr, Add):
+        return expr.func(*[evaluate_deltas(arg, target_idx)
+                           for arg in expr.args])
+    elif isinstance(expr, Mul):
+        if target_idx is None:
+            # for determining""", """    if expr.is_Add:
+        terms = []
+        for arg in expr.args:
+            terms.append(evaluate_deltas(arg, target_idx))
+        return Add(*terms)
+    elif expr.is_Mul:
+        if target_idx is None:
+            # for determining""")]),
+    dict(id="c09-ok-pk-covers", prop="C09", file=S, expect=None,
+         old="""        if spin1 == spin2:  # nn / aa / bb  -> equal information
+            if space1 == space2 or space2 == "g":  # oo / vv / gg / og / vg
+                return (i, j)
+            else:  # go / gv
+                return (j, i)
+        elif spin2:  # na / nb  -> 2 holds more information
+            if space1 == space2 or space1 == "g":  # oo / vv / gg / go / gv
+                return (j, i)
+            else:  # og / vg  -> 1 holds more space information
+                return None
+        else:  # an / bn  -> 1 holds more information
+            if space1 == space2 or space2 == "g":  # oo / vv / gg / og / vg
+                return (i, j)
+            else:  # go / gv  -> 2 holds more space information
+                return None""",
+         new="""        def covers(sp_a, sp_b):
+            return sp_a == sp_b or sp_b == "g"
+
+        if spin1 == spin2:
+            return (i, j) if covers(space1, space2) else (j, i)
+        if spin2:
+            return (j, i) if covers(space2, space1) else None
+        return (i, j) if covers(space1, space2) else None"""),
+    dict(id="c09-ok-equal-info-tuple", prop="C09", file=S, expect=None,
+         old="return i.space == j.space and i.spin == j.spin", new="return i.space_and_spin == j.space_and_spin"),
+    dict(id="c09-ok-idx-property", prop="C09", file=S, expect=None,
+         old="""        i, j = self.args
+        return i.space == j.space and i.spin == j.spin""",
+         new="""        first, second = self.idx
+        return not (first.space != second.space or first.spin != second.spin)"""),
 ]
